@@ -171,6 +171,8 @@ structure St where
   oracle : List POut := []
   calls : Nat := 0
   desync : Bool := false
+  /-- a recorded parser output broke the pipelining-cap contract (`POut.respectsCap`) -/
+  capViolated : Bool := false
   -- RequestHandler
   messages : List QMsg := []
   nextIdx : Nat := 0
@@ -242,22 +244,35 @@ def pauseMsgQ (s : St) : St :=
   let s := { s with msgQueuePaused := true }
   if s.tPresent then { s with tPaused := true } else s
 
+/-- how many `_msg_in_flight` slots one parser call takes -/
+def POut.slots (o : POut) : Nat := if o.raised then o.lost else o.msgs.length
+
+/-- the parser's side of the pipelining cap (`HttpParser.feed_data`, "queue full" branch): it starts
+no new message while `_msg_in_flight >= _max_msg_queue_size` -/
+def POut.respectsCap (o : POut) (inFlight : Nat) : Bool :=
+  o.slots == 0 || inFlight + o.slots ≤ Gen.C05.parserMaxMsgQueueSize
+
 /-- take the next recorded parser output -/
 def parserCall (s : St) : POut × St :=
   match s.oracle with
   | [] => ({}, { s with desync := true, calls := s.calls + 1 })
-  | o :: rest => (o, { s with oracle := rest, calls := s.calls + 1 })
+  | o :: rest => (o, { s with oracle := rest, calls := s.calls + 1,
+                              capViolated := s.capViolated || !o.respectsCap s.inFlight })
 
 def newPayload (m : MsgInfo) : Payload :=
   if m.hasPayload then { empty := false, chunks := m.chunks, eof := m.eof, exc := m.exc } else {}
+
+/-- `_messages.append((msg, payload))` for a parsed request; the parser counted it in `_msg_in_flight` -/
+def pushMsg (s : St) (m : MsgInfo) : St :=
+  { s with messages := s.messages ++ [{ idx := s.nextIdx, err := false, info := m }],
+           payloads := s.payloads ++ [newPayload m], nextIdx := s.nextIdx + 1,
+           inFlight := s.inFlight + 1 }
 
 /-- append the messages of one parser call to `_messages` -/
 def appendMsgs (s : St) : List MsgInfo → St
   | [] => s
   | m :: ms =>
-    let s := { s with messages := s.messages ++ [{ idx := s.nextIdx, err := false, info := m }],
-                      payloads := s.payloads ++ [newPayload m], nextIdx := s.nextIdx + 1,
-                      inFlight := s.inFlight + 1 }
+    let s := pushMsg s m
     let s := if m.hasPayload && m.eof then protoResumeNoParse s else s
     appendMsgs s ms
 
@@ -269,24 +284,35 @@ def applyOlds (s : St) : List OldEv → St
   | [] => s
   | e :: es => applyOlds (payloadEvent s e.idx e.chunks e.eof e.exc) es
 
+/-- queue what one parser call produced: its messages, or one `_ErrInfo` entry if it raised -/
+def enqueueOut (s : St) (o : POut) : St :=
+  if o.raised then { appendErr s with inFlight := s.inFlight + o.lost } else appendMsgs s o.msgs
+
+/-- `if messages and waiter is not None and not waiter.done(): waiter.set_result(None)` -/
+def notifyWaiter (s : St) (got : Bool) : St :=
+  if got && s.waiter == .pending then pushCb { s with waiter := .resolved } .startWake else s
+
+/-- queue full → pause the transport -/
+def checkPause (s : St) : St :=
+  if !s.msgQueuePaused && s.messages.length ≥ s.cfg.maxQ then pauseMsgQ s else s
+
+def setUpgraded (s : St) (o : POut) : St :=
+  let up := !o.raised && o.upgraded
+  let s := { s with upgraded := up }
+  if up && o.tailLen > 0 then { s with messageTail := o.tailLen } else s
+
+def bufferTail (s : St) (n : Nat) : St :=
+  let s := { s with messageTail := s.messageTail + n }
+  if !s.msgQueuePaused && s.messageTail ≥ s.cfg.readBuf then pauseMsgQ s else s
+
 /-- `RequestHandler.data_received(data)` with `n = len(data)` -/
 def dataReceived (s : St) (n : Nat) : St :=
   if s.forceClose || s.close then s else
   if !s.upgraded then
     let r := parserCall s
     let o := r.1
-    let s := r.2
-    let s := applyOlds s o.olds
-    let s : St := if o.raised then { appendErr s with inFlight := s.inFlight + o.lost } else appendMsgs s o.msgs
-    let got := o.raised || !o.msgs.isEmpty
-    let s := if got && s.waiter == .pending then pushCb { s with waiter := .resolved } .startWake else s
-    let s := if !s.msgQueuePaused && s.messages.length ≥ s.cfg.maxQ then pauseMsgQ s else s
-    let up := !o.raised && o.upgraded
-    let s := { s with upgraded := up }
-    if up && o.tailLen > 0 && !o.raised then { s with messageTail := o.tailLen } else s
-  else if n > 0 then
-    let s := { s with messageTail := s.messageTail + n }
-    if !s.msgQueuePaused && s.messageTail ≥ s.cfg.readBuf then pauseMsgQ s else s
+    setUpgraded (checkPause (notifyWaiter (enqueueOut (applyOlds r.2 o.olds) o) (o.raised || !o.msgs.isEmpty))) o
+  else if n > 0 then bufferTail s n
   else s
 
 /-- `_resume_msg_queue_reading` -/
@@ -367,8 +393,7 @@ def reparseTail (s : St) : St :=
       let r := parserCall s
       let o := r.1
       let s := r.2
-      let s := applyOlds s o.olds
-      let s : St := if o.raised then { appendErr s with inFlight := s.inFlight + o.lost } else appendMsgs s o.msgs
+      let s : St := enqueueOut (applyOlds s o.olds) o
       let up := !o.raised && o.upgraded
       let s : St := { s with upgraded := up, messageTail := if o.raised then 0 else o.tailLen }
       if s.messages.length ≥ s.cfg.maxQ then pauseMsgQ s
@@ -476,6 +501,16 @@ inductive SCont where
   | epilogue
 deriving Repr
 
+/-- `parser.message_consumed()` -/
+def consumeSlot (s : St) : St := if s.parserPresent then { s with inFlight := s.inFlight - 1 } else s
+def markErr (s : St) (m : QMsg) : St := if m.err then { s with errPopped := true } else s
+/-- low-water resume of a transport paused for the message queue -/
+def lowWater (s : St) : St :=
+  if s.msgQueuePaused && s.messages.length ≤ s.cfg.resumeQ then resumeMsgQ s else s
+/-- `popleft()`, `parser.message_consumed()`, low-water resume -/
+def popPrep (s : St) (m : QMsg) (rest : List QMsg) : St :=
+  lowWater (markErr (consumeSlot { s with messages := rest }) m)
+
 def startRun : Nat → St → SCont → St
   | 0, s, _ => { s with spc := .done }
   | fuel + 1, s, k =>
@@ -489,10 +524,7 @@ def startRun : Nat → St → SCont → St
       match s.messages with
       | [] => { s with spc := .done }     -- IndexError (unreachable: the waiter fires only after an append)
       | m :: rest =>
-        let s := { s with messages := rest }
-        let s := if s.parserPresent then { s with inFlight := s.inFlight - 1 } else s
-        let s := if m.err then { s with errPopped := true } else s
-        let s := if s.msgQueuePaused && s.messages.length ≤ s.cfg.resumeQ then resumeMsgQ s else s
+        let s := popPrep s m rest
         if !m.err && m.info.badUrl then { s with spc := .done } else   -- the request factory raises: start() dies
         let s := handlerStart fuel s m
         match s.hpc with
@@ -691,6 +723,6 @@ def b01 (b : Bool) : String := if b then "1" else "0"
 def obs (s : St) : String :=
   let (codes, part) := render s.wire.reverse [] none
   let cs := if codes.isEmpty then "-" else ".".intercalate (codes.map toString)
-  s!"r={cs} part={part} cl={b01 (s.tClosing || s.tLost)} lost={b01 s.tLost} q={s.messages.length} pa={b01 s.tPaused} w={b01 (s.waiter == .pending)} c={s.calls} x=0{if s.desync then " DESYNC" else ""}"
+  s!"r={cs} part={part} cl={b01 (s.tClosing || s.tLost)} lost={b01 s.tLost} q={s.messages.length} pa={b01 s.tPaused} w={b01 (s.waiter == .pending)} c={s.calls} x=0{if s.desync then " DESYNC" else ""}{if s.capViolated then " CAPVIOLATED" else ""}"
 
 end Aio.C05
